@@ -328,6 +328,8 @@ struct Srv {
 	svc: Svc,
 	log: Log,
 	limit: u32,
+	/// an HTTP/2 connection (prior knowledge) to the same server, through hyper on both sides of an in-memory duplex
+	h2: Option<hyper::client::conn::http2::SendRequest<ReqBody>>,
 }
 
 impl Srv {
@@ -336,7 +338,42 @@ impl Srv {
 		let cfg = ServerConfig::builder().max_request_body_size(limit).build();
 		let mem = MemServer::new(cfg, module(log.clone()));
 		let svc = mem.service();
-		Srv { _mem: mem, svc, log, limit }
+		Srv { _mem: mem, svc, log, limit, h2: None }
+	}
+
+	/// The same request over HTTP/2. None: the transport failed (not judged).
+	async fn run_h2(&mut self, spec: &ReqSpec) -> Option<Obs> {
+		if self.h2.as_ref().is_none_or(|s| s.is_closed()) {
+			let (io, _jh) = self._mem.raw_conn();
+			let (send, conn) = hyper::client::conn::http2::handshake(hyper_util::rt::TokioExecutor::new(), hyper_util::rt::TokioIo::new(io)).await.ok()?;
+			tokio::spawn(async move {
+				let _ = conn.await;
+			});
+			self.h2 = Some(send);
+		}
+		self.log.lock().unwrap().clear();
+		let req = build_request(spec).ok()?;
+		let send = self.h2.as_mut()?;
+		if send.ready().await.is_err() {
+			self.h2 = None;
+			return None;
+		}
+		let resp = match send.send_request(req).await {
+			Ok(r) => r,
+			Err(_) => {
+				self.h2 = None;
+				return None;
+			}
+		};
+		let status = resp.status().as_u16();
+		let body = http_body_util::BodyExt::collect(resp.into_body()).await.ok()?.to_bytes().to_vec();
+		let mut log = std::mem::take(&mut *self.log.lock().unwrap());
+		log.sort();
+		let b = match serde_json::from_slice::<Value>(&body) {
+			Ok(v) => BodyObs::Json(v),
+			Err(_) => BodyObs::Raw(body.clone()),
+		};
+		Some(Obs { status, body: b, log, error: None, raw: body })
 	}
 
 	async fn run(&mut self, spec: &ReqSpec) -> Obs {
@@ -747,6 +784,22 @@ impl Exec {
 			self.ev.count("requests_without_content_length", 1);
 		}
 		self.ev.count(&format!("status_{}", obs.status), 1);
+		// every 16th request also travels over HTTP/2 (hyper client and server, in-memory connection): same status, same
+		// body, same handler invocations as the direct call on the service
+		if self.used % 16 == 0 && obs.error.is_none() && !matches!(spec.method.as_str(), "HEAD" | "CONNECT") {
+			match self.srv.run_h2(spec).await {
+				Some(h2) => {
+					self.ev.count("http2_requests_compared", 1);
+					if !h2.same(&obs) {
+						let feature = format!("{}:{}", spec.method.chars().take(12).collect::<String>(), chunk_feature(spec));
+						let (a, b) = (obs.to_json(), h2.to_json());
+						let sj = spec_json(spec);
+						self.violation(format!("http2-differs-from-direct-call/{feature}"), format!("direct call: {} ; over HTTP/2: {}", obs.brief(), h2.brief()), move || json!({"spec": sj, "direct": a, "http2": b}));
+					}
+				}
+				None => self.ev.count("http2_transport_errors_not_judged", 1),
+			}
+		}
 		obs
 	}
 
